@@ -69,3 +69,27 @@ Example C15_examples_memo :
   accepts_m token_table rules start_rule "Glc#Man" = Some false /\
   accepts_m token_table rules start_rule "Man(a1-4)" = Some false.
 Proof. vm_compute. repeat split. Qed.
+
+(* the generated files the library really runs: the token definitions and rules decompiled from the serialized ATNs
+   of GlycanLexer.py / GlycanParser.py (Gen/Atn.v, regenerated on every run) against those of Glycan.g4 (Gen/Grammar.v) *)
+From GV Require Import Gen.Atn Proofs.GrammarEq.
+
+Theorem C15_generated_lexer_is_the_grammars :
+  atn_token_table = token_table.
+Proof. vm_compute. reflexivity. Qed.
+Print Assumptions C15_generated_lexer_is_the_grammars.
+
+Theorem C15_generated_parser_is_the_grammars :
+  rules_eqv atn_rules rules = true /\ atn_start_rule = start_rule.
+Proof. vm_compute. split; reflexivity. Qed.
+Print Assumptions C15_generated_parser_is_the_grammars.
+
+(* hence the ATN of the generated parser, read as a grammar, neither lags behind nor runs ahead of Glycan.g4 *)
+Theorem C15_generated_parser_language :
+  forall e w, Der atn_rules e w <-> Der rules e w.
+Proof.
+  intros e w. destruct C15_generated_parser_is_the_grammars as [H _]. split.
+  - apply rules_eqv_fwd. exact H.
+  - apply rules_eqv_bwd. exact H.
+Qed.
+Print Assumptions C15_generated_parser_language.
